@@ -1098,6 +1098,10 @@ pub fn body_sender_ex(cl: Option<u64>, explicit_te: bool, use_call: bool, varian
         b = b.header("content-length", n.to_string());
     } else if explicit_te {
         b = b.header("transfer-encoding", "chunked");
+        if variant & 4 != 0 {
+            // both framing headers: the chunked coding decides, the head says so
+            b = b.header("content-length", "4242");
+        }
     }
     let req = b.body(()).unwrap();
     let mut buf = [0u8; 256];
